@@ -504,6 +504,51 @@ PROPS["C05"]["corr"].append("dml")
 PROPS["C05"]["unique_output"]["dml"] = False
 PROPS["C05"]["level_text"] += " The same sequence-level content theorem is proved for a core of the DML/DDL statements (Model/Dml.lean + DmlPrint.lean: INSERT incl. VALUES / DEFAULT VALUES / RETURNING, UPDATE, DELETE, CREATE TABLE with column options, DROP TABLE; Display text tied to to_string() by stream dml, 13 dialects, both option values): stmt_content_preserved_partial, for printable statements (printable expressions and queries; column types that are keyword-only types written with keyword tokens). An excluded type shape that changes content on the current code is kept as a kernel-checked witness: numbers inside a type are re-rendered (VARCHAR(010) prints VARCHAR(10))."
 
+# ---- second statement fragment (Model/Ddl.lean + DdlPrint.lean, stream `ddl`): CREATE VIEW / CREATE INDEX / ALTER TABLE / TRUNCATE / DROP <kind>, extends the Dml fragment
+PROPS["C11"]["lean"].append("SqlVerif.Props.C11Ddl")
+PROPS["C11"]["namespaces"].append("SqlVerif.Props.C11Ddl")
+PROPS["C11"]["required"] += ["SqlVerif.Props.C11Ddl.ddl_yield", "SqlVerif.Props.C11Ddl.ddl_semi",
+                             "SqlVerif.Props.C11Ddl.ddl_local", "SqlVerif.Props.C11Ddl.script_concat_ddl",
+                             "SqlVerif.Props.C11Ddl.ddl_extends_dml"]
+PROPS["C11"]["corr"].append("ddl")
+PROPS["C11"]["unique_output"]["ddl"] = False
+PROPS["C11"]["level_text"] += " A second statement fragment extends the first (Model/Ddl.lean: the prefix logic of parse_create, parse_create_view with parse_view_columns, parse_create_index, parse_alter with the ADD / DROP / RENAME / ALTER COLUMN arms of parse_alter_table_operation over the column-definition parser of the first fragment, parse_truncate, parse_drop for the eight kinds besides TABLE, everything else handed to the first statement model; tied to the real parse_statements by stream ddl, 13 dialects, both option values): ddl_yield, ddl_local and script_concat_ddl (scripts mixing both fragments), with ddl_extends_dml (the first fragment's statements keep their trees)."
+
+PROPS["C13"]["lean"].append("SqlVerif.Props.C13Ddl")
+PROPS["C13"]["namespaces"].append("SqlVerif.Props.C13Ddl")
+PROPS["C13"]["required"] += ["SqlVerif.Props.C13Ddl.viewCol_local", "SqlVerif.Props.C13Ddl.viewCol_local_sep",
+                             "SqlVerif.Props.C13Ddl.alterOp_local", "SqlVerif.Props.C13Ddl.alterOp_local_sep",
+                             "SqlVerif.Props.C13Ddl.index_columns_is_lists_model", "SqlVerif.Props.C13Ddl.include_is_lists_model",
+                             "SqlVerif.Props.C13Ddl.view_columns_is_lists_model", "SqlVerif.Props.C13Ddl.alter_ops_is_lists_model",
+                             "SqlVerif.Props.C13Ddl.index_columns_trailing_comma", "SqlVerif.Props.C13Ddl.include_trailing_comma",
+                             "SqlVerif.Props.C13Ddl.view_columns_trailing_comma", "SqlVerif.Props.C13Ddl.alter_ops_trailing_comma",
+                             "SqlVerif.Props.C13Ddl.view_columns_not_ad_hoc", "SqlVerif.Props.C13Ddl.add_column_not_local_before_with"]
+PROPS["C13"]["level_text"] += " For the second statement fragment (Model/Ddl.lean, stream ddl, run under C11/C05) all four lists are proved to BE parse_comma_separated lists (index columns, INCLUDE identifiers, view columns, ALTER TABLE operations: *_is_lists_model) - none is an ad-hoc loop; with the option on `CREATE VIEW v (a, FROM) AS ...` is rejected where the CREATE TABLE loop accepts `(a INT, FROM INT)` (view_columns_not_ad_hoc). Element locality and the trailing-comma / option-inert instances are proved for view columns outside ClickHouse and for the operations other than ADD; every view column and every operation (ADD coldef included) is repeated in front of `,` `)` `;` (viewCol_local_sep, alterOp_local_sep), and ADD is proved not to be local in front of a reserved word (add_column_not_local_before_with: `ADD a TIMESTAMP` in front of WITH)."
+
+PROPS["C05"]["lean"].append("SqlVerif.Props.C05Ddl")
+PROPS["C05"]["namespaces"].append("SqlVerif.Props.C05Ddl")
+PROPS["C05"]["required"] += ["SqlVerif.Props.C05Ddl.ddl_content_preserved_partial", "SqlVerif.Props.C05Ddl.ddl_content_preserved_stmt",
+                             "SqlVerif.Props.C05Ddl.ddl_content_preserved_truncate_drop",
+                             "SqlVerif.Props.C05Ddl.add_if_not_exists_dropped", "SqlVerif.Props.C05Ddl.drop_primary_key_swallowed",
+                             "SqlVerif.Props.C05Ddl.temp_index_dropped", "SqlVerif.Props.C05Ddl.view_prefix_order_kept",
+                             "SqlVerif.Props.C05Ddl.content_changed_type_number_alter"]
+PROPS["C05"]["corr"].append("ddl")
+PROPS["C05"]["unique_output"]["ddl"] = False
+PROPS["C05"]["level_text"] += " The content theorem is extended to the second statement fragment (Model/Ddl.lean + DdlPrint.lean: CREATE VIEW, CREATE INDEX, ALTER TABLE with ADD / DROP / RENAME / ALTER COLUMN, TRUNCATE, DROP <kind>; Display text tied to to_string() by stream ddl): ddl_content_preserved_partial for printable statements (TRUNCATE and DROP unconditionally). What the real printer drops or rewrites inside this fragment is keywords only, kept as kernel-checked witnesses: IF NOT EXISTS of ADD outside four dialects, PRIMARY KEY / PROJECTION consumed by DROP before the dialect test (so `ALTER TABLE t DROP PRIMARY KEY a` drops column a in PostgreSQL) and TEMP of CREATE TEMP INDEX; the prefix order of `CREATE TEMPORARY MATERIALIZED VIEW` (printed form rejected by the parser) was found with this model, repaired in /repo and is kept as the positive witness view_prefix_order_kept."
+
+PROPS["C01"]["lean"].append("SqlVerif.Props.C01Ddl")
+PROPS["C01"]["namespaces"].append("SqlVerif.Props.C01Ddl")
+PROPS["C01"]["required"] += ["SqlVerif.Props.C01Ddl.ddl_norm_invariant", "SqlVerif.Props.C01Ddl.ddl_printer_emits_normal_forms",
+                             "SqlVerif.Props.C01Ddl.ddl_reparse_fixpoint_sub", "SqlVerif.Props.C01Ddl.ddl_reparse_fixpoint_partial",
+                             "SqlVerif.Props.C01Ddl.ddl_reparse_fixpoint_normal", "SqlVerif.Props.C01Ddl.ddl_print_idempotent_partial",
+                             "SqlVerif.Props.C01Ddl.ddl_fixpoint_after_one_step", "SqlVerif.Props.C01Ddl.ddl_script_reparse_partial",
+                             "SqlVerif.Props.C01Ddl.ddl_script_fixpoint_partial",
+                             "SqlVerif.Props.C01Ddl.sampleV_hyps", "SqlVerif.Props.C01Ddl.sampleN_hyps", "SqlVerif.Props.C01Ddl.sampleA_hyps",
+                             "SqlVerif.Props.C01Ddl.sampleT_hyps", "SqlVerif.Props.C01Ddl.sampleX_hyps",
+                             "SqlVerif.Props.C01Ddl.rewritten_ddl_shapes_reparse_to_norm",
+                             "SqlVerif.Props.C01Ddl.view_prefix_fixpoint"]
+PROPS["C01"]["level_text"] += " Second statement fragment (Model/Ddl.lean + Model/DdlPrint.lean: CREATE VIEW, CREATE INDEX, ALTER TABLE with ADD / DROP / RENAME / ALTER COLUMN operations, TRUNCATE, DROP <kind>, and through the dispatcher every statement of the first fragment; tied by stream ddl, see C11/C05): the same three theorems, for EVERY configuration record, fuel, limit and token list - (ddl_norm_invariant) the parser respects the image qc when the column types of ADD are keyword types and view columns carry no data type; (ddl_printer_emits_normal_forms) the printed tokens are the consumed ones up to qc; (ddl_reparse_fixpoint_partial, _sub, ddl_script_fixpoint_partial for scripts mixing both fragments) an accepted statement that is printableQ, of normal shape and lexer-like re-parses from its printed tokens, with the SAME fuel and limit, to s.norm, which has the S-expression of s. normal excludes what Display re-writes here (TEMP for TEMPORARY, a `()` view column list, trailing commas, TEMP of CREATE TEMP INDEX, DROP / RENAME / ALTER without COLUMN, keywords swallowed by DROP, IF NOT EXISTS of ADD dropped or moved); one instance of each is decided by kernel evaluation to re-parse to exactly s.norm (rewritten_ddl_shapes_reparse_to_norm, with ddl_fixpoint_after_one_step for the fixpoint from the first print on). A counterexample found with this model - `CREATE TEMPORARY MATERIALIZED VIEW v AS SELECT 1` printed `CREATE MATERIALIZED TEMPORARY VIEW ...`, which the parser rejects - was repaired in /repo with a fix: commit and is kept as the positive kernel-checked witness view_prefix_fixpoint; no statement of this fragment is left whose AST is not a fixpoint."
+
 # entries still under construction by a sub-agent are not claimed in MANIFEST.json yet
 for _hold in []:
     if _hold in PROPS:
